@@ -700,7 +700,35 @@ def db_short_examples(per_pattern=8):
     return out
 
 
+def _variants():
+    """systematic variations of the hand-written fragments: an extra space before commas, other opening
+    brackets glued to the case name, a footnote reference between a supra/id token and its pin cite."""
+    pre = list(PRE)
+    for p in PRE:
+        if p.startswith("(") or " (" in p:
+            for br in "[{\"":
+                pre.append(p.replace("(", br, 1))
+    pre += ["[Foo v. Bar, ", "See [Roe v. Wade, ", "\"Foo v. Bar, "]
+    post = list(POST)
+    for q in POST:
+        if "," in q:
+            post.append(q.replace(",", " ,", 1))
+        if q.startswith(", at") or q.startswith(" at"):
+            post.append(" note 12" + q)
+            post.append(" n. 3" + q)
+    return pre, post
+
+
 def corpus():
+    pre_v, post_v = _variants()
+    for pre in pre_v[len(PRE):]:
+        for cite in CITE:
+            for post in POST[:12]:
+                yield pre + cite + post
+    for pre in PRE[:8]:
+        for cite in CITE:
+            for post in post_v[len(POST):]:
+                yield pre + cite + post
     for pre in PRE:
         for cite in CITE:
             for post in POST:
@@ -877,6 +905,28 @@ def run_property(rep, pid):
     findings, W = explore_parts(rep, pid)
     common_notes(rep, W)
     settle(rep, pid, findings, {"C02": ["C02:"], "C17": ["C17:"], "C04": ["C04:"], "C18": ["C18:"]}[pid])
+    if pid == "C02":
+        # the offsets refer to the text the tokenizer was given: Document.tokenize must hand over its own text
+        from vf.harness import c12
+
+        agg_d = common.explore_split("vf.harness.c12", {"lemma": "document"}, depth=2, procs=1)
+        rep.merge_explore("document_tokenize", agg_d)
+        n_ok = sum(v for k, v in agg_d["verdicts"].items() if k.endswith(":valid"))
+        rep.oblige(n_ok)
+        rep.oblige(sum(agg_d["verdicts"].values()) - n_ok, ok=False)
+        if any(f["verdict"] == "cex" for f in agg_d["findings"]):
+            hit = None
+            for t in c12.PROBES:
+                rep.replays += 1
+                bad, cs = oracle_text(t)
+                bad = [b for b in bad if b.startswith("C02")]
+                if bad:
+                    hit = (t, bad)
+                    break
+            if hit:
+                rep.violation(f"get_citations({hit[0]!r}) violates {hit[1]} (Document.tokenize does not give the tokenizer the document's own text)", {"kind": "text", "text": hit[0]})
+            else:
+                rep.inconc("Document.tokenize does not hand its own plain text to the tokenizer, but the probe texts show no offset/text mismatch")
     for t in REGRESSION.get(pid, []):
         rep.replays += 1
         bad, cs = oracle_text(t)
